@@ -540,14 +540,39 @@ func (r *c04Run) ruleStartIdx(tr *c04Trace, name string) int {
 }
 
 func (r *c04Run) finalRound(tr *c04Trace) *c04T {
-	return tr.x.load(&c04State{mem: tr.mem, dec: tr.dec}, r.roundAt0, r.roundInitType())
+	return tr.x.load(&c04State{mem: tr.mem, dec: tr.dec}, r.addrIn(tr, r.roundAt0), r.roundInitType())
 }
 
 func (r *c04Run) roundAt(tr *c04Trace, i int) *c04T {
-	if t := tr.memAt(r.roundAddr, i); t != nil {
+	if t := tr.memAt(r.addrIn(tr, r.roundAt0).k, i); t != nil {
 		return t
 	}
 	return r.roundInit
+}
+
+// addrIn: the address of a state cell, known from the paths of one iteration of the loop, as the given path names it.
+// The paths from the entry of Run to the loop (r.pre) execute the code that creates the state, so a location inside
+// a state object that an iteration knows as "the object that existed before the path started" is there a location
+// inside whatever the creating instruction evaluated to (an allocation of a followed constructor, …).
+func (r *c04Run) addrIn(tr *c04Trace, addr *c04T) *c04T {
+	if addr == nil || tr.x == r.x || len(tr.pre) == 0 {
+		return addr
+	}
+	switch {
+	case addr.kind == 'f' && len(addr.args) == 1:
+		base := r.addrIn(tr, addr.args[0])
+		if base == addr.args[0] {
+			return addr
+		}
+		t := c04S("fa#"+strconv.Itoa(addr.idx), base)
+		t.kind, t.idx, t.op, t.typ = 'f', addr.idx, addr.op, addr.typ
+		return t
+	case addr.kind == 's' && addr.op == "pre":
+		if t, ok := tr.pre[addr.k]; ok {
+			return t
+		}
+	}
+	return addr
 }
 
 // bcast: e is a broadcast of the named message type.
@@ -1302,7 +1327,7 @@ func c04T4(r *c04Run) {
 	}
 	// the cache: the cell of Run that a quorum-round-change path stores classify's justification into
 	cache := ""
-	var cacheInit *c04T
+	var cacheInit, cacheAddr, inputAddr *c04T
 	flagInit := map[string]c04Lit{}
 	for _, tr := range qrc {
 		_, _, just := r.cls(tr)
@@ -1312,7 +1337,7 @@ func c04T4(r *c04Run) {
 				if cache != "" && cache != e.addr.k {
 					c.Bail("Run: several cells cache a justification")
 				}
-				cache, cacheInit = e.addr.k, r.x.initOf(e.addr)
+				cache, cacheInit, cacheAddr = e.addr.k, r.x.initOf(e.addr), e.addr
 				// companions: boolean state the same function sets to a constant together with the cache ("cached = true");
 				// "a justification is cached" then means the cache cell holds it and these flags have those values
 				for j, e2 := range tr.evs {
@@ -1340,11 +1365,13 @@ func c04T4(r *c04Run) {
 		in := c04S("ext#"+strconv.Itoa(inputExt), r.selRes(tr))
 		for _, e := range tr.evs {
 			if e.kind == "store" && r.isRunState(e.addr) && e.val.k == in.k {
-				inputCell = e.addr.k
+				inputCell, inputAddr = e.addr.k, e.addr
 			}
 		}
 	}
-	ownValue := func(t *c04T) bool { return inputCell != "" && t.from != nil && t.from.k == inputCell }
+	ownValue := func(tr *c04Trace, t *c04T) bool {
+		return inputCell != "" && t.from != nil && t.from.k == r.addrIn(tr, inputAddr).k
+	}
 	proposes := func(tr *c04Trace, from int, just *c04T) (found bool, own bool, ownOK bool) {
 		ownOK = true
 		for i, e := range tr.evs {
@@ -1357,7 +1384,7 @@ func c04T4(r *c04Run) {
 			found = true
 			if e.args[5].from != nil {
 				own = true
-				if !ownValue(e.args[5]) {
+				if !ownValue(tr, e.args[5]) {
 					ownOK = false
 				}
 			}
@@ -1368,7 +1395,7 @@ func c04T4(r *c04Run) {
 		if cache == "" {
 			return false
 		}
-		t, ok := tr.mem[cache]
+		t, ok := tr.mem[r.addrIn(tr, cacheAddr).k]
 		if !ok {
 			return false
 		}
